@@ -16,6 +16,7 @@ type IdpAnswer struct {
 	Status int    `json:"status"`           // HTTP status (0 = 200)
 	Body   string `json:"body"`             // raw body
 	Close  bool   `json:"close,omitempty"`  // close the connection without answering
+	Hang   bool   `json:"hang,omitempty"`   // accept the request and never answer (until the client gives up, at most 8 s)
 	CutAt  int    `json:"cut_at,omitempty"` // >0: declare the full Content-Length but send only CutAt bytes, then close
 	CT     string `json:"ct,omitempty"`     // content type (default application/json)
 }
@@ -69,6 +70,14 @@ func (f *FakeIdP) SetDelay(d time.Duration) {
 	f.mu.Lock()
 	f.delay = d
 	f.mu.Unlock()
+}
+
+// IsRevoked: has the family of this access / refresh token been revoked here?
+func (f *FakeIdP) IsRevoked(tok string) bool {
+	f.mu.Lock()
+	defer f.mu.Unlock()
+	ti, ok := f.Tokens[tok]
+	return ok && ti.Revoked
 }
 
 // SetToken registers what the IdP knows about an access / refresh token.
@@ -156,6 +165,13 @@ func (f *FakeIdP) serve(w http.ResponseWriter, r *http.Request) {
 	if d > 0 {
 		time.Sleep(d)
 	}
+	if a.Hang {
+		select {
+		case <-r.Context().Done():
+		case <-time.After(8 * time.Second):
+		}
+		a.Close = true
+	}
 	if a.Close {
 		if hj, ok := w.(http.Hijacker); ok {
 			if conn, _, err := hj.Hijack(); err == nil {
@@ -237,6 +253,9 @@ func (f *FakeIdP) auto(ep string, c IdpCall) IdpAnswer {
 		return IdpAnswer{Body: string(b)}
 	case "revoke":
 		tok := c.Form["token"]
+		if tok == "" {
+			return IdpAnswer{Status: 400, Body: `{"error":"invalid_request","error_description":"The 'token' parameter is required."}`}
+		}
 		if ti, ok := f.Tokens[tok]; ok {
 			if ti.Revoked {
 				return IdpAnswer{Status: 400, Body: `{"error":"invalid_token","error_description":"Token expired or revoked"}`}
